@@ -62,8 +62,15 @@ def gen_case(rng):
             iattr = ' padding="%dpx"' % ip
         cols.append((cw, cpl, cpr, ipl, ipr))
         xml.append('<mj-column%s><mj-image src="https://x/a.png"%s/></mj-column>' % (cattr, iattr))
-    src = '<mjml><mj-body width="%dpx"><mj-section%s>%s</mj-section></mj-body></mjml>' % (W, sattr, "".join(xml))
-    return {"W": W, "spl": spl, "spr": spr, "cols": cols, "src": src}
+    # the section's padding shorthand may also reach it through <mj-attributes> (tag default) or an mj-class
+    via = rng.choice(["element", "element", "tag-default", "mj-class"]) if style != "sides" else "element"
+    head = ""
+    if via == "tag-default":
+        head, sattr = "<mj-head><mj-attributes><mj-section%s /></mj-attributes></mj-head>" % sattr, ""
+    elif via == "mj-class":
+        head, sattr = '<mj-head><mj-attributes><mj-class name="sp"%s /></mj-attributes></mj-head>' % sattr, ' mj-class="sp"'
+    src = '<mjml>%s<mj-body width="%dpx"><mj-section%s>%s</mj-section></mj-body></mjml>' % (head, W, sattr, "".join(xml))
+    return {"W": W, "spl": spl, "spr": spr, "cols": cols, "src": src, "via": via}
 
 
 def observe(toks):
@@ -158,7 +165,7 @@ def run(ck):
         if not r or r["err"]["class"] != "none":
             continue
         tds, imgs = observe(vlib.parse_toks(toks[i]))
-        ck.count(c["src"], len(c["cols"]) >= 2, tags=["cols:%d" % len(c["cols"]), "W:%d" % c["W"]])
+        ck.count(c["src"], len(c["cols"]) >= 2, tags=["cols:%d" % len(c["cols"]), "W:%d" % c["W"], "section-padding-via:" + c.get("via", "element")])
         if len(tds) != len(c["cols"]) or len(imgs) != len(c["cols"]):
             failing.append(({"src": c["src"], "cells": tds, "images": imgs}, "cannot locate one Outlook cell and one image per column"))
             continue
